@@ -1,0 +1,763 @@
+// Verification hooks. Compiled only with `--cfg ipc_channel_verif`; nothing in this file (or any
+// call site referring to it) exists in a normal build.
+//
+// The module gives an external harness four things:
+//   * `emit`/`point`: one NDJSON line per observed step, ordered by a sequence number that is
+//     shared by every participating thread and process;
+//   * a gate hook: the harness may hold a thread at a `point` until it decides to release it;
+//   * a fault hook: the harness may make a transmission system call fail without performing it;
+//   * `sys`: a drop-in replacement for the `libc` names used by the Unix back-end whose functions
+//     report the call, pass the gate, consult the fault hook, perform the real call and report the
+//     result.
+
+use std::cell::Cell;
+use std::fmt::Write as _;
+use std::sync::atomic::{AtomicI32, AtomicI64, AtomicPtr, AtomicU64, AtomicUsize, Ordering};
+use std::sync::{Once, RwLock};
+
+pub type Field<'a> = (&'a str, i64);
+
+pub type GateHook = dyn Fn(&str, &[Field]) + Send + Sync;
+pub type FaultHook = dyn Fn(&str, &[Field]) -> Option<i32> + Send + Sync;
+
+static INIT: Once = Once::new();
+static SINK_FD: AtomicI32 = AtomicI32::new(-1);
+static SEQ_PTR: AtomicPtr<AtomicU64> = AtomicPtr::new(std::ptr::null_mut());
+static LOCAL_SEQ: AtomicU64 = AtomicU64::new(0);
+static GATE: RwLock<Option<Box<GateHook>>> = RwLock::new(None);
+static FAULT: RwLock<Option<Box<FaultHook>>> = RwLock::new(None);
+static HOOKS_INSTALLED: AtomicUsize = AtomicUsize::new(0);
+static CRASH_COUNTDOWN: AtomicI64 = AtomicI64::new(-1);
+static SENDBUF_OVERRIDE: AtomicI64 = AtomicI64::new(-2);
+
+thread_local! {
+    static ACTOR: Cell<i64> = const { Cell::new(-1) };
+    static TID: Cell<i64> = const { Cell::new(0) };
+    static QUIET: Cell<bool> = const { Cell::new(false) };
+}
+
+fn env(name: &str) -> Option<String> {
+    std::env::var(name).ok().filter(|s| !s.is_empty())
+}
+
+/// Open the trace sink and the shared sequence page named by the environment. Called lazily by
+/// `emit`; a harness calls it explicitly so that these two resources exist before it takes its
+/// baseline of descriptors and mappings.
+pub fn init() {
+    INIT.call_once(|| unsafe {
+        if let Some(path) = env("IPC_VERIF_TRACE") {
+            let c = std::ffi::CString::new(path).unwrap();
+            let fd = ::libc::open(
+                c.as_ptr(),
+                ::libc::O_WRONLY | ::libc::O_APPEND | ::libc::O_CREAT | ::libc::O_CLOEXEC,
+                0o644,
+            );
+            SINK_FD.store(fd, Ordering::SeqCst);
+        }
+        if let Some(path) = env("IPC_VERIF_SEQ") {
+            let c = std::ffi::CString::new(path).unwrap();
+            let fd = ::libc::open(
+                c.as_ptr(),
+                ::libc::O_RDWR | ::libc::O_CREAT | ::libc::O_CLOEXEC,
+                0o644,
+            );
+            if fd >= 0 {
+                let _ = ::libc::ftruncate(fd, 4096);
+                let p = ::libc::mmap(
+                    std::ptr::null_mut(),
+                    4096,
+                    ::libc::PROT_READ | ::libc::PROT_WRITE,
+                    ::libc::MAP_SHARED,
+                    fd,
+                    0,
+                );
+                ::libc::close(fd);
+                if p != ::libc::MAP_FAILED {
+                    SEQ_PTR.store(p as *mut AtomicU64, Ordering::SeqCst);
+                }
+            }
+        }
+    });
+}
+
+/// Descriptor of the trace sink (so that a harness can leave it out of its own accounting).
+pub fn sink_fd() -> i32 {
+    SINK_FD.load(Ordering::SeqCst)
+}
+
+/// Address of the shared sequence page, or 0.
+pub fn seq_page() -> usize {
+    SEQ_PTR.load(Ordering::SeqCst) as usize
+}
+
+pub fn enabled() -> bool {
+    init();
+    SINK_FD.load(Ordering::Relaxed) >= 0
+}
+
+pub fn set_actor(id: i64) {
+    ACTOR.with(|a| a.set(id));
+}
+
+pub fn actor() -> i64 {
+    ACTOR.with(|a| a.get())
+}
+
+/// Suppress events and hooks of the calling thread (used by a harness around its own plumbing).
+pub fn set_quiet(q: bool) {
+    QUIET.with(|c| c.set(q));
+}
+
+fn quiet() -> bool {
+    QUIET.with(|c| c.get())
+}
+
+fn tid() -> i64 {
+    TID.with(|t| {
+        if t.get() == 0 {
+            t.set(unsafe { ::libc::syscall(::libc::SYS_gettid) } as i64);
+        }
+        t.get()
+    })
+}
+
+fn next_seq() -> u64 {
+    let p = SEQ_PTR.load(Ordering::Relaxed);
+    if p.is_null() {
+        LOCAL_SEQ.fetch_add(1, Ordering::SeqCst)
+    } else {
+        unsafe { (*p).fetch_add(1, Ordering::SeqCst) }
+    }
+}
+
+fn now_ns() -> i64 {
+    let mut ts = ::libc::timespec {
+        tv_sec: 0,
+        tv_nsec: 0,
+    };
+    unsafe { ::libc::clock_gettime(::libc::CLOCK_MONOTONIC, &mut ts) };
+    ts.tv_sec as i64 * 1_000_000_000 + ts.tv_nsec as i64
+}
+
+/// Append one event to the trace.
+pub fn emit(ev: &str, fields: &[Field]) {
+    if quiet() || !enabled() {
+        return;
+    }
+    let errno_saved = unsafe { *::libc::__errno_location() };
+    let mut line = String::with_capacity(160);
+    let g = next_seq();
+    let _ = write!(
+        line,
+        "{{\"g\":{},\"p\":{},\"t\":{},\"a\":{},\"ns\":{},\"ev\":\"{}\"",
+        g,
+        unsafe { ::libc::getpid() },
+        tid(),
+        actor(),
+        now_ns(),
+        ev
+    );
+    for (k, v) in fields {
+        let _ = write!(line, ",\"{}\":{}", k, v);
+    }
+    line.push_str("}\n");
+    unsafe {
+        ::libc::write(
+            SINK_FD.load(Ordering::Relaxed),
+            line.as_ptr() as *const ::libc::c_void,
+            line.len(),
+        );
+        *::libc::__errno_location() = errno_saved;
+    }
+}
+
+pub fn set_gate_hook(hook: Option<Box<GateHook>>) {
+    let installed = hook.is_some();
+    *GATE.write().unwrap() = hook;
+    if installed {
+        HOOKS_INSTALLED.fetch_or(1, Ordering::SeqCst);
+    } else {
+        HOOKS_INSTALLED.fetch_and(!1, Ordering::SeqCst);
+    }
+}
+
+pub fn set_fault_hook(hook: Option<Box<FaultHook>>) {
+    let installed = hook.is_some();
+    *FAULT.write().unwrap() = hook;
+    if installed {
+        HOOKS_INSTALLED.fetch_or(2, Ordering::SeqCst);
+    } else {
+        HOOKS_INSTALLED.fetch_and(!2, Ordering::SeqCst);
+    }
+}
+
+/// Kill this process with SIGKILL at the `n`-th point passed from now on (0 = the next one).
+pub fn arm_crash(n: i64) {
+    CRASH_COUNTDOWN.store(n, Ordering::SeqCst);
+}
+
+/// A named step: report it, then let the harness hold the thread here if it wants to.
+pub fn point(site: &str, fields: &[Field]) {
+    if quiet() {
+        return;
+    }
+    emit(site, fields);
+    let c = CRASH_COUNTDOWN.load(Ordering::SeqCst);
+    if c >= 0 {
+        if c == 0 {
+            emit("crash", &[]);
+            unsafe {
+                ::libc::kill(::libc::getpid(), ::libc::SIGKILL);
+                ::libc::pause();
+            }
+        }
+        CRASH_COUNTDOWN.store(c - 1, Ordering::SeqCst);
+    }
+    if HOOKS_INSTALLED.load(Ordering::Relaxed) & 1 != 0 {
+        let errno_saved = unsafe { *::libc::__errno_location() };
+        if let Some(h) = GATE.read().unwrap().as_ref() {
+            h(site, fields);
+        }
+        unsafe { *::libc::__errno_location() = errno_saved };
+    }
+}
+
+/// Brackets one library-level operation: `<name>.enter` now, `<name>.leave` when dropped (on every
+/// exit path).
+pub struct Scope {
+    name: &'static str,
+}
+
+impl Scope {
+    pub fn enter(name: &'static str, fields: &[Field]) -> Scope {
+        let mut n = String::from(name);
+        n.push_str(".enter");
+        point(&n, fields);
+        Scope { name }
+    }
+}
+
+impl Drop for Scope {
+    fn drop(&mut self) {
+        let mut n = String::from(self.name);
+        n.push_str(".leave");
+        emit(&n, &[]);
+    }
+}
+
+/// Ask the harness whether the system call about to be made at `site` should fail instead.
+pub fn fault(site: &str, fields: &[Field]) -> Option<i32> {
+    if quiet() || HOOKS_INSTALLED.load(Ordering::Relaxed) & 2 == 0 {
+        return None;
+    }
+    FAULT.read().unwrap().as_ref().and_then(|h| h(site, fields))
+}
+
+/// Value to use instead of `getsockopt(SO_SNDBUF)` (environment `IPC_VERIF_SENDBUF`).
+pub fn sendbuf_override() -> Option<usize> {
+    let mut v = SENDBUF_OVERRIDE.load(Ordering::Relaxed);
+    if v == -2 {
+        v = env("IPC_VERIF_SENDBUF")
+            .and_then(|s| s.parse::<i64>().ok())
+            .unwrap_or(-1);
+        SENDBUF_OVERRIDE.store(v, Ordering::Relaxed);
+    }
+    if v > 0 {
+        Some(v as usize)
+    } else {
+        None
+    }
+}
+
+/// Inode number of the open file behind `fd` (the same in every process), or -1.
+pub fn ino(fd: i32) -> i64 {
+    unsafe {
+        let mut st = std::mem::MaybeUninit::<::libc::stat>::uninit();
+        if ::libc::fstat(fd, st.as_mut_ptr()) != 0 {
+            return -1;
+        }
+        st.assume_init().st_ino as i64
+    }
+}
+
+/// 1 = socket, 2 = anything else, 0 = not open.
+pub fn fd_kind(fd: i32) -> i64 {
+    unsafe {
+        let mut st = std::mem::MaybeUninit::<::libc::stat>::uninit();
+        if ::libc::fstat(fd, st.as_mut_ptr()) != 0 {
+            return 0;
+        }
+        if (st.assume_init().st_mode & ::libc::S_IFMT) == ::libc::S_IFSOCK {
+            1
+        } else {
+            2
+        }
+    }
+}
+
+pub fn cloexec(fd: i32) -> i64 {
+    let r = unsafe { ::libc::fcntl(fd, ::libc::F_GETFD) };
+    if r < 0 {
+        -1
+    } else {
+        (r & ::libc::FD_CLOEXEC != 0) as i64
+    }
+}
+
+pub fn nonblock(fd: i32) -> i64 {
+    let r = unsafe { ::libc::fcntl(fd, ::libc::F_GETFL) };
+    if r < 0 {
+        -1
+    } else {
+        (r & ::libc::O_NONBLOCK != 0) as i64
+    }
+}
+
+fn errno() -> i64 {
+    unsafe { *::libc::__errno_location() as i64 }
+}
+
+fn set_errno(e: i32) {
+    unsafe { *::libc::__errno_location() = e };
+}
+
+/// Report a descriptor that now belongs to the library.
+pub fn fd_new(how: &str, fd: i32) {
+    if fd >= 0 {
+        emit(
+            "fd.new",
+            &[
+                ("fd", fd as i64),
+                ("ino", ino(fd)),
+                ("kind", fd_kind(fd)),
+                ("cloexec", cloexec(fd)),
+                ("how", how_code(how)),
+            ],
+        );
+    }
+}
+
+fn how_code(how: &str) -> i64 {
+    match how {
+        "socketpair" => 1,
+        "socket" => 2,
+        "accept" => 3,
+        "dup" => 4,
+        "shm" => 5,
+        "recvmsg" => 6,
+        "epoll" => 7,
+        _ => 0,
+    }
+}
+
+/// Replacement for the `libc` names used by the Unix back-end. Everything not overridden here is
+/// the real thing.
+#[allow(clippy::missing_safety_doc)]
+pub mod sys {
+    pub use ::libc::*;
+
+    use super::{emit, errno, fault, fd_new, ino, nonblock, point, set_errno};
+
+    pub unsafe fn socketpair(
+        domain: c_int,
+        type_: c_int,
+        protocol: c_int,
+        sv: *mut c_int,
+    ) -> c_int {
+        point("socketpair.call", &[]);
+        let r = ::libc::socketpair(domain, type_, protocol, sv);
+        let e = errno();
+        if r >= 0 {
+            let (a, b) = (*sv, *sv.add(1));
+            emit(
+                "socketpair.ret",
+                &[
+                    ("res", r as i64),
+                    ("fd0", a as i64),
+                    ("fd1", b as i64),
+                    ("ino0", ino(a)),
+                    ("ino1", ino(b)),
+                ],
+            );
+            fd_new("socketpair", a);
+            fd_new("socketpair", b);
+        } else {
+            emit("socketpair.ret", &[("res", r as i64), ("errno", e)]);
+        }
+        set_errno(e as i32);
+        r
+    }
+
+    pub unsafe fn close(fd: c_int) -> c_int {
+        // Reported before the call: afterwards the number may already belong to someone else.
+        point(
+            "close.call",
+            &[("fd", fd as i64), ("ino", ino(fd)), ("nb", nonblock(fd))],
+        );
+        let r = ::libc::close(fd);
+        let e = errno();
+        emit(
+            "close.ret",
+            &[
+                ("fd", fd as i64),
+                ("res", r as i64),
+                ("errno", if r < 0 { e } else { 0 }),
+            ],
+        );
+        set_errno(e as i32);
+        r
+    }
+
+    unsafe fn cmsg_fds(msg: *const msghdr) -> (usize, *const c_int) {
+        let control = (*msg).msg_control as *const u8;
+        let controllen = (*msg).msg_controllen as usize;
+        let hdr = std::mem::size_of::<cmsghdr>();
+        if control.is_null() || controllen < hdr {
+            return (0, std::ptr::null());
+        }
+        let c = control as *const cmsghdr;
+        let len = (*c).cmsg_len as usize;
+        if len < hdr {
+            return (0, std::ptr::null());
+        }
+        (
+            (len - hdr) / std::mem::size_of::<c_int>(),
+            control.add(hdr) as *const c_int,
+        )
+    }
+
+    pub unsafe fn sendmsg(fd: c_int, msg: *const msghdr, flags: c_int) -> ssize_t {
+        let iov = (*msg).msg_iov;
+        let niov = (*msg).msg_iovlen as usize;
+        let mut total: i64 = -1;
+        let mut len: i64 = 0;
+        let mut tag: i64 = -1;
+        if niov >= 1 && (*iov).iov_len == 8 {
+            total = *((*iov).iov_base as *const u64) as i64;
+        }
+        if niov >= 2 {
+            let d = &*iov.add(1);
+            len = d.iov_len as i64;
+            if d.iov_len >= 8 {
+                tag = std::ptr::read_unaligned(d.iov_base as *const i64);
+            }
+        }
+        let (nfds, fds) = cmsg_fds(msg);
+        let last_ino = if nfds > 0 {
+            ino(*fds.add(nfds - 1))
+        } else {
+            -1
+        };
+        let fields = [
+            ("fd", fd as i64),
+            ("ino", ino(fd)),
+            ("total", total),
+            ("len", len),
+            ("nfds", nfds as i64),
+            ("lastino", last_ino),
+            ("tag", tag),
+        ];
+        point("sendmsg.call", &fields);
+        let r = match fault("sendmsg", &fields) {
+            Some(e) => {
+                set_errno(e);
+                -1
+            },
+            None => ::libc::sendmsg(fd, msg, flags),
+        };
+        let e = errno();
+        emit(
+            "sendmsg.ret",
+            &[
+                ("fd", fd as i64),
+                ("res", r as i64),
+                ("errno", if r < 0 { e } else { 0 }),
+            ],
+        );
+        set_errno(e as i32);
+        r
+    }
+
+    pub unsafe fn send(fd: c_int, buf: *const c_void, len: size_t, flags: c_int) -> ssize_t {
+        let fields = [("fd", fd as i64), ("ino", ino(fd)), ("len", len as i64)];
+        point("send.call", &fields);
+        let r = match fault("send", &fields) {
+            Some(e) => {
+                set_errno(e);
+                -1
+            },
+            None => ::libc::send(fd, buf, len, flags),
+        };
+        let e = errno();
+        emit(
+            "send.ret",
+            &[
+                ("fd", fd as i64),
+                ("res", r as i64),
+                ("errno", if r < 0 { e } else { 0 }),
+            ],
+        );
+        set_errno(e as i32);
+        r
+    }
+
+    pub unsafe fn recvmsg(fd: c_int, msg: *mut msghdr, flags: c_int) -> ssize_t {
+        let iov = (*msg).msg_iov;
+        let niov = (*msg).msg_iovlen as usize;
+        let cap = if niov >= 2 {
+            (*iov.add(1)).iov_len as i64
+        } else {
+            -1
+        };
+        let ctl_cap = (*msg).msg_controllen as i64;
+        point(
+            "recvmsg.call",
+            &[
+                ("fd", fd as i64),
+                ("ino", ino(fd)),
+                ("cap", cap),
+                ("ctlcap", ctl_cap),
+                ("nb", nonblock(fd)),
+            ],
+        );
+        let r = ::libc::recvmsg(fd, msg, flags);
+        let e = errno();
+        let mut total: i64 = -1;
+        let mut tag: i64 = -1;
+        let mut nfds = 0usize;
+        let mut last_ino = -1;
+        if r > 0 {
+            if niov >= 1 && r >= 8 {
+                total = *((*iov).iov_base as *const u64) as i64;
+            }
+            if niov >= 2 && r >= 16 {
+                tag = std::ptr::read_unaligned((*iov.add(1)).iov_base as *const i64);
+            }
+            if (*msg).msg_controllen > 0 {
+                let (n, fds) = cmsg_fds(msg);
+                nfds = n;
+                for i in 0..n {
+                    fd_new("recvmsg", *fds.add(i));
+                }
+                if n > 0 {
+                    last_ino = ino(*fds.add(n - 1));
+                }
+            }
+        }
+        emit(
+            "recvmsg.ret",
+            &[
+                ("fd", fd as i64),
+                ("res", r as i64),
+                ("errno", if r < 0 { e } else { 0 }),
+                ("total", total),
+                ("nfds", nfds as i64),
+                ("lastino", last_ino),
+                ("tag", tag),
+                ("flags", (*msg).msg_flags as i64),
+                ("ctllen", (*msg).msg_controllen as i64),
+                ("ctlcap", ctl_cap),
+            ],
+        );
+        set_errno(e as i32);
+        r
+    }
+
+    pub unsafe fn recv(fd: c_int, buf: *mut c_void, len: size_t, flags: c_int) -> ssize_t {
+        point(
+            "recv.call",
+            &[("fd", fd as i64), ("ino", ino(fd)), ("cap", len as i64)],
+        );
+        let r = ::libc::recv(fd, buf, len, flags);
+        let e = errno();
+        emit(
+            "recv.ret",
+            &[
+                ("fd", fd as i64),
+                ("res", r as i64),
+                ("errno", if r < 0 { e } else { 0 }),
+                ("cap", len as i64),
+            ],
+        );
+        set_errno(e as i32);
+        r
+    }
+
+    pub unsafe fn fcntl(fd: c_int, cmd: c_int, arg: c_int) -> c_int {
+        point(
+            "fcntl.call",
+            &[("fd", fd as i64), ("cmd", cmd as i64), ("arg", arg as i64)],
+        );
+        let r = ::libc::fcntl(fd, cmd, arg);
+        let e = errno();
+        emit(
+            "fcntl.ret",
+            &[
+                ("fd", fd as i64),
+                ("res", r as i64),
+                ("nb", nonblock(fd)),
+                ("set", (cmd == F_SETFL && arg & O_NONBLOCK != 0) as i64),
+            ],
+        );
+        set_errno(e as i32);
+        r
+    }
+
+    pub unsafe fn poll(fds: *mut pollfd, nfds: nfds_t, timeout: c_int) -> c_int {
+        let fd = if nfds > 0 { (*fds).fd } else { -1 };
+        point(
+            "poll.call",
+            &[("fd", fd as i64), ("ino", ino(fd)), ("ms", timeout as i64)],
+        );
+        let r = ::libc::poll(fds, nfds, timeout);
+        let e = errno();
+        emit(
+            "poll.ret",
+            &[("fd", fd as i64), ("res", r as i64), ("ms", timeout as i64)],
+        );
+        set_errno(e as i32);
+        r
+    }
+
+    pub unsafe fn socket(domain: c_int, ty: c_int, protocol: c_int) -> c_int {
+        point("socket.call", &[]);
+        let r = ::libc::socket(domain, ty, protocol);
+        let e = errno();
+        emit("socket.ret", &[("res", r as i64), ("ino", ino(r))]);
+        fd_new("socket", r);
+        set_errno(e as i32);
+        r
+    }
+
+    pub unsafe fn connect(fd: c_int, address: *const sockaddr, len: socklen_t) -> c_int {
+        point("connect.call", &[("fd", fd as i64), ("ino", ino(fd))]);
+        let r = ::libc::connect(fd, address, len);
+        let e = errno();
+        emit(
+            "connect.ret",
+            &[
+                ("fd", fd as i64),
+                ("res", r as i64),
+                ("errno", if r < 0 { e } else { 0 }),
+            ],
+        );
+        set_errno(e as i32);
+        r
+    }
+
+    pub unsafe fn bind(fd: c_int, address: *const sockaddr, len: socklen_t) -> c_int {
+        point("bind.call", &[("fd", fd as i64), ("ino", ino(fd))]);
+        let r = ::libc::bind(fd, address, len);
+        let e = errno();
+        emit("bind.ret", &[("fd", fd as i64), ("res", r as i64)]);
+        set_errno(e as i32);
+        r
+    }
+
+    pub unsafe fn listen(fd: c_int, backlog: c_int) -> c_int {
+        point(
+            "listen.call",
+            &[("fd", fd as i64), ("backlog", backlog as i64)],
+        );
+        let r = ::libc::listen(fd, backlog);
+        let e = errno();
+        emit("listen.ret", &[("fd", fd as i64), ("res", r as i64)]);
+        set_errno(e as i32);
+        r
+    }
+
+    pub unsafe fn accept(fd: c_int, address: *mut sockaddr, len: *mut socklen_t) -> c_int {
+        point("accept.call", &[("fd", fd as i64), ("ino", ino(fd))]);
+        let r = ::libc::accept(fd, address, len);
+        let e = errno();
+        emit(
+            "accept.ret",
+            &[("fd", fd as i64), ("res", r as i64), ("ino", ino(r))],
+        );
+        fd_new("accept", r);
+        set_errno(e as i32);
+        r
+    }
+
+    pub unsafe fn dup(fd: c_int) -> c_int {
+        point("dup.call", &[("fd", fd as i64)]);
+        let r = ::libc::dup(fd);
+        let e = errno();
+        emit("dup.ret", &[("fd", fd as i64), ("res", r as i64)]);
+        fd_new("dup", r);
+        set_errno(e as i32);
+        r
+    }
+
+    pub unsafe fn shm_open(name: *const c_char, oflag: c_int, mode: mode_t) -> c_int {
+        point("shm_open.call", &[]);
+        let r = ::libc::shm_open(name, oflag, mode as c_uint);
+        let e = errno();
+        emit("shm_open.ret", &[("res", r as i64)]);
+        fd_new("shm", r);
+        set_errno(e as i32);
+        r
+    }
+
+    pub unsafe fn ftruncate(fd: c_int, length: off_t) -> c_int {
+        let r = ::libc::ftruncate(fd, length);
+        let e = errno();
+        emit(
+            "ftruncate",
+            &[("fd", fd as i64), ("len", length as i64), ("res", r as i64)],
+        );
+        set_errno(e as i32);
+        r
+    }
+
+    pub unsafe fn mmap(
+        addr: *mut c_void,
+        len: size_t,
+        prot: c_int,
+        flags: c_int,
+        fd: c_int,
+        offset: off_t,
+    ) -> *mut c_void {
+        point("mmap.call", &[("fd", fd as i64), ("len", len as i64)]);
+        let r = ::libc::mmap(addr, len, prot, flags, fd, offset);
+        let e = errno();
+        emit(
+            "mmap.ret",
+            &[
+                ("fd", fd as i64),
+                ("len", len as i64),
+                ("addr", r as i64),
+                ("ok", (r != MAP_FAILED) as i64),
+            ],
+        );
+        set_errno(e as i32);
+        r
+    }
+
+    pub unsafe fn munmap(addr: *mut c_void, len: size_t) -> c_int {
+        point("munmap.call", &[("addr", addr as i64), ("len", len as i64)]);
+        let r = ::libc::munmap(addr, len);
+        let e = errno();
+        emit(
+            "munmap.ret",
+            &[
+                ("addr", addr as i64),
+                ("len", len as i64),
+                ("res", r as i64),
+            ],
+        );
+        set_errno(e as i32);
+        r
+    }
+
+    pub unsafe fn malloc(size: size_t) -> *mut c_void {
+        let r = ::libc::malloc(size);
+        emit("malloc", &[("addr", r as i64), ("len", size as i64)]);
+        r
+    }
+
+    pub unsafe fn free(p: *mut c_void) {
+        emit("free", &[("addr", p as i64)]);
+        ::libc::free(p)
+    }
+}
